@@ -465,7 +465,7 @@ func side(c *vf.Ctx, g *gitx.Git, bin, fname string, idLen, nCommits, nTags int)
 		c.Count("git_verifier_calls", 1)
 		c.Seen("verifier_programs", k.gitProg)
 		c.Count("payload_comparisons", 1)
-		if !bytes.Equal(payload, k.gitPayload) && k.kind == "commit" && bytes.Equal(stripGpgsigPrefixed(payload), k.gitPayload) {
+		if !bytes.Equal(payload, k.gitPayload) && k.kind == "commit" && !keepsRealSigHeader(payload) && bytes.Equal(stripGpgsigPrefixed(payload), k.gitPayload) {
 			k.fails["payload-keeps-header-starting-with-gpgsig"] = fmt.Sprintf("git drops every header line that starts with \"gpgsig\" (and its continuation lines) from the commit payload; go-git drops only gpgsig and gpgsig-sha256: go-git %s, git %s", vf.Q(payload), vf.Q(k.gitPayload))
 		} else if !bytes.Equal(payload, k.gitPayload) {
 			k.fails["payload"] = fmt.Sprintf("payload differs: go-git %s, git hands its verifier %s", vf.Q(payload), vf.Q(k.gitPayload))
@@ -494,6 +494,11 @@ func headerPart(raw []byte) []string {
 		out = append(out, ln)
 	}
 	return out
+}
+
+// keepsRealSigHeader: the payload still contains a genuine gpgsig / gpgsig-sha256 header (never part of the known finding).
+func keepsRealSigHeader(p []byte) bool {
+	return hasHeader(p, "gpgsig ") || hasHeader(p, "gpgsig-sha256 ")
 }
 
 func hasHeader(raw []byte, prefix string) bool {
